@@ -30,6 +30,10 @@ Section PvalInd.
   Variable P : pval -> Prop.
   Hypothesis HInt : forall z, P (PInt z).
   Hypothesis HNat : forall z, P (PNat z).
+  Hypothesis HMutez : forall z, P (PMutez z).
+  Hypothesis HTimestamp : forall z, P (PTimestamp z).
+  Hypothesis HAddress : forall s, P (PAddress s).
+  Hypothesis HChainId : forall s, P (PChainId s).
   Hypothesis HStr : forall s, P (PStr s).
   Hypothesis HBytes : forall s, P (PBytes s).
   Hypothesis HBool : forall b, P (PBool b).
@@ -45,6 +49,10 @@ Section PvalInd.
     match v with
     | PInt z => HInt z
     | PNat z => HNat z
+    | PMutez z => HMutez z
+    | PTimestamp z => HTimestamp z
+    | PAddress s => HAddress s
+    | PChainId s => HChainId s
     | PStr s => HStr s
     | PBytes s => HBytes s
     | PBool b => HBool b
@@ -66,6 +74,7 @@ End PvalInd.
 Section DataInd.
   Variable P : data -> Prop.
   Hypothesis HInt : forall z, P (DInt z).
+  Hypothesis HMutez : forall z, P (DMutez z).
   Hypothesis HStr : forall s, P (DStr s).
   Hypothesis HBytes : forall s, P (DBytes s).
   Hypothesis HBool : forall b, P (DBool b).
@@ -80,6 +89,7 @@ Section DataInd.
   Fixpoint data_ind' (v : data) : P v :=
     match v with
     | DInt z => HInt z
+    | DMutez z => HMutez z
     | DStr s => HStr s
     | DBytes s => HBytes s
     | DBool b => HBool b
@@ -104,7 +114,7 @@ Definition typed (v : pval) (t : ty) : Prop := pv_typedb v t = true.
 Lemma typed_rt_type v : forall t, typed v t -> rt_type v = t.
 Proof.
   unfold typed.
-  induction v as [z|z|s|s|b| |x y IHx IHy|t0|x IHx|x t0 IHx|t0 x IHx|t0 l IHl] using pval_ind';
+  induction v as [z|z|z|z|s|s|s|s|b| |x y IHx IHy|t0|x IHx|x t0 IHx|t0 x IHx|t0 l IHl] using pval_ind';
     intros [] Ht; simpl in Ht; try discriminate; simpl; try reflexivity.
   - apply andb_prop in Ht as [H1 H2]. f_equal; auto.
   - apply ty_eqb_eq in Ht. congruence.
@@ -132,6 +142,17 @@ Proof. destruct v; unfold typed; simpl; try discriminate; eauto. Qed.
 Lemma typed_nat_inv v : typed v TNat -> exists z, v = PNat z /\ (0 <= z)%Z.
 Proof. destruct v; unfold typed; simpl; try discriminate. intros H. apply Z.leb_le in H. eauto. Qed.
 Lemma typed_string_inv v : typed v TString -> exists s, v = PStr s.
+Proof. destruct v; unfold typed; simpl; try discriminate; eauto. Qed.
+Lemma typed_mutez_inv v : typed v TMutez -> exists z, v = PMutez z /\ (0 <= z < mutez_bound)%Z.
+Proof.
+  destruct v; unfold typed; simpl; try discriminate. intros H. apply andb_prop in H as [H1 H2].
+  apply Z.leb_le in H1. apply Z.ltb_lt in H2. eauto.
+Qed.
+Lemma typed_timestamp_inv v : typed v TTimestamp -> exists z, v = PTimestamp z.
+Proof. destruct v; unfold typed; simpl; try discriminate; eauto. Qed.
+Lemma typed_address_inv v : typed v TAddress -> exists s, v = PAddress s.
+Proof. destruct v; unfold typed; simpl; try discriminate; eauto. Qed.
+Lemma typed_chain_id_inv v : typed v TChainId -> exists s, v = PChainId s.
 Proof. destruct v; unfold typed; simpl; try discriminate; eauto. Qed.
 Lemma typed_bytes_inv v : typed v TBytes -> exists s, v = PBytes s.
 Proof. destruct v; unfold typed; simpl; try discriminate; eauto. Qed.
@@ -166,11 +187,15 @@ Lemma py_of_data_typed d : forall t, data_has_type t d = true ->
   exists v, py_of_data t d = Some v /\ typed v t /\ erase v = value_of_data d.
 Proof.
   unfold typed.
-  induction d as [z|s|s|b| |x y IHx IHy| |x IHx|x IHx|x IHx|l IHl] using data_ind';
+  induction d as [z|z|s|s|b| |x y IHx IHy| |x IHx|x IHx|x IHx|l IHl] using data_ind';
     intros [] Ht; simpl in Ht; try discriminate; simpl.
   - eexists; repeat split.
   - apply Z.leb_le in Ht. destruct (z <? 0)%Z eqn:E; [apply Z.ltb_lt in E; lia|].
     eexists; repeat split. simpl. apply Z.leb_le. assumption.
+  - eexists; repeat split.
+  - apply andb_prop in Ht as [H1 H2]. pose proof H1 as H1'. apply Z.leb_le in H1'.
+    destruct (z <? 0)%Z eqn:E; [apply Z.ltb_lt in E; lia|]. rewrite H2.
+    eexists; repeat split. simpl. rewrite H1, H2. reflexivity.
   - eexists; repeat split.
   - eexists; repeat split.
   - eexists; repeat split.
